@@ -11,6 +11,9 @@ pub const NAME_POOL: &[&str] = &[
     "a,b", "a\nb", "b.txt", "x.txt", "B", "a\\b", "1", "É", "-a", "a ", "~", "a:b", "e\u{301}",
     // names that are not valid UTF-8 (raw bytes 0xFF / 0xFE, see scenario::BYTE_BASE)
     "n\u{F8FF}", "\u{F8FE}x.txt", "a\u{F8FF}b",
+    // letters whose case folding is not what `to_lowercase`/`to_uppercase` say: a digraph with a
+    // titlecase form, the micro sign, final sigma
+    "ǆ", "µs", "ς",
     "aaaaaaaaaaaaaaaaaaaaaaaaaaaaaaaaaaaaaaaaaaaaaaaaaaaaaaaaaaaaaaaaaaaaaaaaaaaaaaaaaaaaaaaaaaaaaaaaaaaaaaaaaaaaaaaaaaaaaaaaaaaaaaaa",
     // 250 bytes (NAME_MAX is 255)
     "bcbcbcbcbcbcbcbcbcbcbcbcbcbcbcbcbcbcbcbcbcbcbcbcbcbcbcbcbcbcbcbcbcbcbcbcbcbcbcbcbcbcbcbcbcbcbcbcbcbcbcbcbcbcbcbcbcbcbcbcbcbcbcbcbcbcbcbcbcbcbcbcbcbcbcbcbcbcbcbcbcbcbcbcbcbcbcbcbcbcbcbcbcbcbcbcbcbcbcbcbcbcbcbcbcbcbcbcbcbcbcbcbcbcbcbcbcbcbcbcbcbcbcbcbcbcbc",
@@ -42,6 +45,38 @@ pub struct Gen<'a> {
     pub link_base_pct: usize,
 }
 
+/// Names (first) with a partner that Unicode simple case folding identifies with them.
+const FOLD_FAMILY: &[[&str; 2]] = &[["ǆ", "ǅ"], ["µs", "μS"], ["ς", "Σ"]];
+
+/// A different spelling of `name` that a case-insensitive match identifies with it: partner letters
+/// where simple case folding knows some that plain lowercase/uppercase conversion does not
+/// (`ǆ ǅ Ǆ`, `µ μ`, `ς σ Σ`, `s ſ`, `k K`), the other case otherwise.
+fn fold_variant(name: &str, salt: usize) -> String {
+    name.chars()
+        .enumerate()
+        .flat_map(|(i, c)| {
+            let alt: &[char] = match c {
+                'ǆ' | 'ǅ' | 'Ǆ' => &['ǅ', 'Ǆ', 'ǆ'],
+                'µ' | 'μ' | 'Μ' => &['μ', 'Μ', 'µ'],
+                'ς' | 'σ' | 'Σ' => &['σ', 'Σ', 'ς'],
+                's' | 'S' => &['ſ', 'S', 's'],
+                'k' | 'K' => &['\u{212A}', 'K', 'k'],
+                _ => &[],
+            };
+            let picks: Vec<char> = alt.iter().copied().filter(|a| *a != c).collect();
+            if !picks.is_empty() {
+                vec![picks[(salt + i) % picks.len()]]
+            }
+            else if c.is_lowercase() {
+                c.to_uppercase().collect()
+            }
+            else {
+                c.to_lowercase().collect()
+            }
+        })
+        .collect()
+}
+
 fn esc(name: &str) -> String {
     // (pattern text is text: an invalid byte in a name is matched through its lossy rendering)
     wax::escape(&lossy(name)).into_owned()
@@ -58,6 +93,14 @@ impl<'a> Gen<'a> {
             let n = *rng.pick(NAME_POOL);
             if !names.contains(&n) {
                 names.push(n);
+            }
+        }
+        // a name with a folding partner often comes with it (`ǆ` with `ǅ`, `µs` with `μs`)
+        for n in names.clone() {
+            if let Some(p) = FOLD_FAMILY.iter().find(|f| f[0] == n) {
+                if rng.chance(1, 2) {
+                    names.push(p[1]);
+                }
             }
         }
         Gen {
@@ -413,17 +456,8 @@ impl<'a> Gen<'a> {
                 }
             },
             9 => {
-                let flipped: String = name
-                    .chars()
-                    .flat_map(|c| {
-                        if c.is_lowercase() {
-                            c.to_uppercase().collect::<Vec<char>>()
-                        }
-                        else {
-                            c.to_lowercase().collect::<Vec<char>>()
-                        }
-                    })
-                    .collect();
+                let salt = self.rng.below(6);
+                let flipped: String = fold_variant(name, salt);
                 if self.rng.chance(1, 2) {
                     format!("(?i){}", esc(&flipped))
                 }
@@ -724,8 +758,13 @@ impl<'a> Gen<'a> {
                 _ => alt,
             };
         }
-        let w = self.rng.weighted(&[10, 10, 8, 8, 6, 5, 4, 3, 3, 5, 4, 4, 4, 3, 14, 3, 3, 4, 3, 3, 3, 2, 2, 3]);
+        let w = self.rng.weighted(&[10, 10, 8, 8, 6, 5, 4, 3, 3, 5, 4, 4, 4, 3, 14, 3, 3, 4, 3, 3, 3, 2, 2, 3, 3, 2, 1]);
         match w {
+            // wholly literal text under a case flag (nothing variant in it but the case), and a
+            // class that holds nothing but a separator (which never matches)
+            24 => format!("(?i){}", esc(&fold_variant(&x, self.rng.below(6)))),
+            25 => format!("(?i){}/{}", esc(&fold_variant(&x, self.rng.below(6))), esc(&fold_variant(&y, self.rng.below(6)))),
+            26 => format!("{}[/]{}", ex, ey),
             0 => format!("{}/**", ex),
             1 => format!("**/{}/**", ex),
             2 => format!("**/{}", ex),
@@ -787,7 +826,9 @@ impl<'a> Gen<'a> {
     // ------------------------------------------------------------------ walkers
 
     pub fn spelling(&mut self) -> Spelling {
-        match self.rng.weighted(&[30, 30, 10, 10, 10, 10]) {
+        match self.rng.weighted(&[30, 30, 10, 10, 10, 10, 6, 6]) {
+            6 => Spelling::Odd { absolute: true, kind: self.rng.below(3) as u8 },
+            7 => Spelling::Odd { absolute: false, kind: self.rng.below(3) as u8 },
             0 => Spelling::Absolute,
             1 => Spelling::Relative,
             2 => Spelling::AbsoluteSlash,
